@@ -255,7 +255,7 @@ def wire_want(line):
                     return None
                 w = rfc1071(ps(src, dst, 17, 8 + len(pl)) + zero_at(h, 6) + pl)
                 return "ok(%d)" % (0xFFFF if w == 0 else w)
-            if len(h) < 20 or len(h) != (h[12] >> 4) * 4 or h[12] & 0x0E:
+            if len(h) < 20 or len(h) != (h[12] >> 4) * 4:
                 return None
             if not v6 and len(pl) > 0xFFFF - len(h):
                 return "err"
@@ -349,6 +349,27 @@ def wire_cases(rng, tier):
         if rng.random() < 0.5:
             m = m[:2] + w.to_bytes(2, "big") + m[4:]
         yield Case(["ck.w.icmp6\t%s\t%s\t%s" % (hx(src), hx(dst), hx(m))], {"k": "w6", "want": w, "valid": False, "data": hx(m)})
+    # TCP headers with reserved bits of octet 12 set (the struct cannot hold them: only the routes that sum the wire bytes)
+    for _ in range(60 if tier == "quick" else 1500):
+        for v in (4, 6):
+            src, dst = _addr_pair(rng, 4 if v == 4 else 16)
+            pl = _payload(rng, tier)
+            h = bytearray(_tcp_header(rng))
+            h[12] |= rng.choice([0x02, 0x04, 0x08, 0x0E, 0x06])
+            h = bytes(h)
+            ps = pseudo4 if v == 4 else pseudo6
+            w = rfc1071(ps(src, dst, 6, len(h) + len(pl)) + zero_at(h, 16) + pl)
+            yield Case(["ck.w.tcp%d\t%s\t%s\t%s\t%s" % (v, hx(src), hx(dst), hx(h), hx(pl))], {"k": "w", "want": w, "data": hx(pl)})
+    # accumulator states at the very edge: a small sum in front of 16 / 8 byte parts whose halves are all ones or one
+    # less, so that the running total lands on 2^64 - 1, 2^64, 2^65 - 2, 2^65 - 1 (a single fold carries out again)
+    ones8 = bytes([0xFF] * 8)
+    for pre in ([], [b"\x01\x00"], [b"\x02\x00"], [b"\x01\x00", b"\x01\x00"], [b"\xff\xff"], [b"\x00\x01"], [ones8], [b"\x01\x00\x00\x00"]):
+        for lo in (ones8, b"\xfe" + ones8[1:], ones8[:7] + b"\xfe", bytes(8)):
+            for hi in (ones8, b"\xfe" + ones8[1:], bytes(8)):
+                for tail in ([], [b"\x01\x00"], [lo + hi]):
+                    parts = list(pre) + [lo + hi] + list(tail)
+                    allb = b"".join(parts)
+                    yield Case(["ck.s16\t%s\t-" % "\t".join(hx(x) for x in parts), "spec.ck.rfc\t%s" % hx(allb)], {"k": "s16", "data": hx(allb)})
     # Sum16BitWords method chains: random even-sized parts through add_2/4/8/16bytes and add_slice,
     # biased to saturated accumulators (all ones) so that carries out of bit 63 happen
     n = 3000 if tier == "quick" else 60000
